@@ -442,7 +442,12 @@ class Gen:
         if "m0" not in self.vars or self.in_func:
             return self.s_write(depth, loop_depth, in_main)
         self.feat("list_mutation")
-        k = self.choice(["append", "append", "append_own", "remove", "remove", "read", "dump", "len"])
+        k = self.choice(["append", "append", "append_own", "remove", "remove", "read", "dump", "len", "rotate", "rotate"])
+        if k == "rotate":
+            # duplicate the first element at the end, then remove by that value: Python removes the *first* occurrence; dump shows which one went
+            v = f"q{len(self.loop_vars)}"
+            return [("b", "if len(m0) > 0:", [("s", "m0.append(m0[0])")]), ("b", "if len(m0) > 1:", [("s", "m0.remove(m0[-1])")]),
+                    ("b", f"for {v} in range(len(m0)):", [("s", f"mon.write(m0[{v}])")])]
         if k == "append":
             v = self.int_lit(1, 3) if self.chance(0.7) else self.e_int(1)
             return [("s", f"m0.append({v})")]
@@ -800,7 +805,7 @@ class Gen:
             self.list_len[name] = ln
             self.const.add(name)
             self.feat("list_literal")
-        if self.chance(0.45):
+        if self.chance(0.55):
             ln = self.d(st.integers(1, 4))
             nodes.append(("s", f"m0 = [{', '.join(self.int_lit(1, 3) for _ in range(ln))}]"))
             self.vars["m0"] = "list_int_mut"
